@@ -1,6 +1,6 @@
 (* C16 - Merge always terminates, succeeds on related replicas, and keeps the tree sound.
    Statements only.  Model: db/Merge.v. *)
-From KP Require Import Bytes Outcome Tree TreeFacts History Merge MergeProofs MergeLookup MergeTermination MergeUuids.
+From KP Require Import Bytes Outcome Tree TreeFacts History Merge MergeProofs MergeLookup MergeTermination MergeUuids MergeSuccess.
 
 (* History::merge_with neither panics nor fails when every item carries a modification time and
    the destination's own times are distinct *)
@@ -80,3 +80,46 @@ Proof. exact merge_result_origin. Qed.
 
 Theorem c16_merge_never_out_of_fuel : forall now d s, uuids_ok d -> merge now d s <> OutOfFuel.
 Proof. exact merge_never_out_of_fuel. Qed.
+
+(* ---- does merge return at all, and with what (db/MergeSuccess.v) ------------------------------ *)
+(* with every entry and history item time-stamped, unique UUIDs and no UUID shared between an entry and
+   a group, merge never takes one of the code's unwrap sites *)
+Theorem c16_merge_never_panics : forall (now : Z) (d s : db),
+  wf_lm d -> wf_lm s -> uuids_ok d -> kinds_agree d s ->
+  forall site : N, merge now d s <> Panic site.
+Proof. exact merge_never_panics. Qed.
+
+(* every error merge reports is a modification-time conflict of a group, a pair of history items with
+   one time stamp, or a failed group lookup - never the generic error, a failed entry lookup, or the
+   entry modification-time error (which is unreachable from merge altogether) *)
+Theorem c16_merge_errors_classified : forall (now : Z) (d s : db),
+  wf_lm d -> wf_lm s -> uuids_ok d -> kinds_agree d s ->
+  forall e : merr, merge now d s = Err e ->
+  e = EGroupTime \/ e = EDupHistory \/ (exists p : list N, e = EFindGroup p).
+Proof. exact merge_errors_classified. Qed.
+
+Theorem c16_entry_time_error_unreachable : forall (now : Z) (d s : db), merge now d s <> Err EEntryTime.
+Proof. exact merge_never_entry_time. Qed.
+
+(* success: when, in addition, histories carry pairwise distinct stamps and every group present in both
+   replicas has equal content under equal modification times and no later location stamp in the source
+   (the source moved no shared group after the destination did), merge returns a database *)
+Theorem c16_merge_succeeds : forall (now : Z) (d s : db),
+  wf_lm d -> wf_lm s -> hist_distinct d -> hist_distinct s -> uuids_ok d -> uuids_ok s ->
+  kinds_agree d s -> (0 <= now)%Z -> groups_agree now d s ->
+  exists (d' : db) (lg : log), merge now d s = Ok (d', lg).
+Proof. exact merge_succeeds. Qed.
+
+(* the failed group lookup IS reachable when the source moved shared groups: finding F21.  Everything
+   else of the success theorem's hypotheses holds for this pair of replicas *)
+Theorem c16_group_moves_can_fail_refuted :
+  wf_lmb fg_d = true /\ wf_lmb fg_s = true /\ hist_distinctb fg_d = true /\ hist_distinctb fg_s = true /\
+  uuids_okb fg_d = true /\ uuids_okb fg_s = true /\ kinds_agreeb fg_d fg_s = true /\
+  groups_agreeb 30 fg_d fg_s = false /\
+  merge 30 fg_d fg_s = Err (EFindGroup [1%N; 2%N]).
+Proof. exact cx_findgroup. Qed.
+
+(* the success theorem is not vacuous: a pair of replicas with edits on both sides meets its hypotheses *)
+Theorem c16_merge_succeeds_example :
+  exists (d' : db) (lg : log), merge 20 ex_d ex_s = Ok (d', lg).
+Proof. exact ex_succeeds. Qed.
